@@ -17,6 +17,12 @@ def correspondence(ctx):
     variants = QUICK_VARIANTS if ctx.quick() else ALL_VARIANTS
     # (a) synthesized streams, filtered by R
     cand = [synth.stream(rng) for _ in range(700 if ctx.quick() else 20000)]
+    # compressed blocks with FSE-described sequence tables (random distributions incl. 'less than one' probabilities); every 12th one
+    # holds the most expensive sequence the format allows (> 2 MiB offset, > 32 KiB literal run, long match, full-cost state updates)
+    for i in range(180 if ctx.quick() else 5000):
+        r = synth.frame_ring(rng) if i % 12 == 6 else synth.frame_fse(rng, extreme=(i % 12 == 0))
+        if r:
+            cand.append(r)
     r = frames.parallel(lambda ch: frames.model_lines(ch), frames.split_chunks(["dec %d %s" % (len(c) + 8, frames.hx(f)) for f, c in cand], 16))
     valid = [(f, rr) for (f, c), rr in zip(cand, r) if rr.startswith("ok")]
     synth_disagree = [(f, c, rr) for (f, c), rr in zip(cand, r) if rr.startswith("ok") and int(rr.split()[1]) != len(c)]
@@ -53,7 +59,10 @@ def correspondence(ctx):
         hx = frames.hx(f)
         w = " ".join(rr.split()[:3])
         for op in ("dec %d %s" % (n, hx), "dec %d %s" % (n + 100000 + rng.randint(0, 300000), hx),
-                   "decs %d %s %s %s" % (n, hx, rng.choice(["1", "3,1,100", "100000", "7,4096"]), rng.choice(["100000", "1", "64,5", "4096"])),
+                   # (the harness stops after 2,000,000 calls: no 1-byte output windows on multi-megabyte contents)
+                   "decs %d %s %s %s" % (n, hx, rng.choice(["1", "3,1,100", "100000", "7,4096"]), rng.choice(["100000", "1", "64,5", "4096"] if n < 400000 else ["100000", "4096", "70000,5", "131072"])) + rng.choice(["", " fresh"]),
+                   # own decoding context (exactly the buffers this frame needs), small output windows
+                   "decs %d %s %s %s fresh" % (n, hx, rng.choice(["100000", "131075", "7,4096"]), rng.choice(["4096", "4096", "1000,70000"])),
                    "decs %d %s %s %s" % (n + 50, hx, rng.choice(["100000", "131075"]), rng.choice(["131072", "1000000"])),
                    "bufless %d %s" % (n + rng.choice([0, 0, 100, 200000]), hx), "decso %d %s %s" % (n + rng.choice([0, 1000]), hx, rng.choice(["1", "100000", "5,300"])),
                    "inplace %d 0 %s" % (n, hx)):
